@@ -202,12 +202,16 @@ TIE_MOD = "AioMySensors.Lemmas.BodiesEq"
 # properties about the stream transports: the generated StreamTransport methods must equal the model's Transport.*
 STREAM_TIE_PROPS = {"C03", "C17"}
 STREAM_TIE_MOD = "AioMySensors.Lemmas.StreamBodiesEq"
+# properties about the decoder: MessageSchema.load assembled from the generated validators must equal `decode`
+CODEC_TIE_PROPS = {"C01", "C02", "C03"}
+CODEC_TIE_MOD = "AioMySensors.Lemmas.CodecBodiesEq"
 
 
 def translate_bodies(force_snapshot: bool) -> str:
     cmd = [PY, os.path.join(VERIF, "tools", "translate.py"), "--repo", lib.REPO,
            "--out", os.path.join(LEAN, "AioMySensors", "Generated", "Bodies.lean"),
            "--stream-out", os.path.join(LEAN, "AioMySensors", "Generated", "StreamBodies.lean"),
+           "--codec-out", os.path.join(LEAN, "AioMySensors", "Generated", "CodecBodies.lean"),
            "--snapshot", os.path.join(VERIF, "tools", "bodies_snapshot.json"),
            "--json", os.path.join(VERIF, "tools", "bodies_status.json")]
     if force_snapshot:
@@ -326,21 +330,23 @@ def run(prop: str, tier: str, replay: str | None) -> int:
         # 1b. body translator (gateway-level properties): handler bodies -> Generated/Bodies.lean
         tie = prop in TIE_PROPS
         stream_tie = prop in STREAM_TIE_PROPS
-        if tie or stream_tie:
+        codec_tie = prop in CODEC_TIE_PROPS
+        if tie or stream_tie or codec_tie:
             report["translation"] = translate_bodies(force_snapshot=False)
         # 2. build: the models (driver) first, then the property's theorems
         rc_m, out_m = sh(["lake", "build", "AioMySensors.Model"], cwd=LEAN)
         model_ok = rc_m == 0
         rc_p, out_p = sh(["lake", "build", prop_mod], cwd=LEAN)
         proofs_ok = rc_p == 0
-        if tie or stream_tie:
-            rc_b, out_b = sh(["lake", "build", "AioMySensors.Generated.Bodies", "AioMySensors.Generated.StreamBodies"], cwd=LEAN)
+        if tie or stream_tie or codec_tie:
+            rc_b, out_b = sh(["lake", "build", "AioMySensors.Generated.Bodies", "AioMySensors.Generated.StreamBodies",
+                              "AioMySensors.Generated.CodecBodies"], cwd=LEAN)
             if rc_b != 0:
                 # the translation does not type-check: that is a limit of the translator, not a fact about the code;
                 # fall back to the committed translation and leave the tie to the correspondence run
                 report["translation"] = translate_bodies(force_snapshot=True) + " (fresh translation did not type-check: " \
                     + " ".join(out_b.split())[-300:] + ")"
-            for on, tmod in ((tie, TIE_MOD), (stream_tie, STREAM_TIE_MOD)):
+            for on, tmod in ((tie, TIE_MOD), (stream_tie, STREAM_TIE_MOD), (codec_tie, CODEC_TIE_MOD)):
                 if not on:
                     continue
                 rc_t, out_t = sh(["lake", "build", tmod], cwd=LEAN)
@@ -357,6 +363,8 @@ def run(prop: str, tier: str, replay: str | None) -> int:
         mods.append(TIE_MOD)
     if stream_tie and STREAM_TIE_MOD not in mods:
         mods.append(STREAM_TIE_MOD)
+    if codec_tie and CODEC_TIE_MOD not in mods:
+        mods.append(CODEC_TIE_MOD)
     theorems = {}
     for m in mods:
         for name, a, b in theorem_spans(module_path(m)):
@@ -499,6 +507,8 @@ def run(prop: str, tier: str, replay: str | None) -> int:
         "extraction": report["extraction"],
         "body_translation": report.get("translation", "not used by this property"),
         "tie_search": report.get("tie_search", "not needed (every equality of BodiesEq checks)" if tie else "n/a"),
+        "codec_tie": ("CodecBodiesEq.loadGen_eq: MessageSchema.load assembled from the generated validators = decode, "
+                      "raising nothing but ValidationError" if codec_tie else "n/a"),
         "stream_tie": ("StreamBodiesEq: the generated StreamTransport methods equal Transport.connect/disconnect/read/write" if stream_tie else "n/a"),
         "extraction_ok": extraction_ok,
         "model_builds": model_ok,
